@@ -309,7 +309,9 @@ def run(ctx):
         inp = {"label": lab, "calls": seq, "password": pw, "archive_hex": data.hex() if len(data) <= 4000 else data[:2000].hex() + "...", "archive_len": len(data)}
         if st == "timeout":
             ctx.fail(_sig("spin", lab), "a read-mode call did not return within %d s on a %d-byte input" % (WALL, len(data)), inp)
-        elif st in ("memory", "died"):
+        elif st == "died":
+            ctx.fail(_sig("died", lab), "a read-mode call killed the interpreter (%s) on a %d-byte input" % (val, len(data)), inp)
+        elif st == "memory":
             ctx.fail(_sig("memory", lab), "a read-mode call exhausted %d MiB of address space (or killed the interpreter: %s) on a %d-byte input" % (MEM >> 20, val, len(data)), inp)
         else:
             ctx.fail(_sig("crash", lab), "sandboxed worker failed: %s %s" % (st, str(val)[:200]), inp)
@@ -317,6 +319,9 @@ def run(ctx):
 
 def _sig(kind, lab):
     part = lab.split(":", 1)[1] if ":" in lab else lab
+    if kind == "died":
+        # which codec family the base archive uses identifies the native library that crashed
+        return "C05:interpreter_killed:" + (lab.split(":", 1)[0] if ":" in lab else "-")
     if kind == "memory" and (part.startswith("raw-") or part.startswith("struct")):
         return "C05:count_bomb"
     if kind == "spin" and part.startswith("raw-"):
